@@ -158,7 +158,68 @@ impl Rules {
         out
     }
 
+    /// The language of each token kind as its *name* promises it, independent of tokenizer.txt
+    /// (so that an edit of the rule file that changes what a kind means is noticed). Kinds not in
+    /// this table (new tokens) are only checked against the rule file.
+    fn named_language(kind: &str, text: &str) -> Option<bool> {
+        use std::sync::OnceLock;
+        static RES: OnceLock<Vec<(&'static str, Regex)>> = OnceLock::new();
+        let res = RES.get_or_init(|| {
+            [
+                ("Whitespace", r"^[ \t\r\n]+$"),
+                ("NonBreakingSpace", "^\u{a0}$"),
+                ("Ident", r"^[A-Za-z_][A-Za-z0-9_]*$"),
+                ("Float", r"^(\d[\d_]*)?\.\d[\d_]*([eE][-+]?\d[\d_]*)?$"),
+                ("Int", r"^\d[\d_]*([eE]\d[\d_]*)?$"),
+                ("Hex", r"^0x[0-9a-fA-F]+$"),
+                ("Bin", r"^0b[01]+$"),
+                ("Bool", r"^(true|false)$"),
+            ]
+            .into_iter()
+            .map(|(k, r)| (k, Regex::new(r).unwrap()))
+            .collect()
+        });
+        if let Some((_, re)) = res.iter().find(|(k, _)| *k == kind) {
+            return Some(re.is_match(text));
+        }
+        const KEYWORDS: &[&str] = &[
+            "As", "If", "Else", "While", "Loop", "Switch", "In", "Distinct", "Mut", "Extern", "Struct", "Enum", "Comptime", "Return", "Break",
+            "Continue", "Defer", "Try", "Catch",
+        ];
+        if KEYWORDS.contains(&kind) {
+            return Some(text == kind.to_lowercase());
+        }
+        const PUNCT: &[(&str, &str)] = &[
+            ("Plus", "+"), ("Hyphen", "-"), ("Asterisk", "*"), ("Slash", "/"), ("Percent", "%"), ("Left", "<"), ("DoubleLeft", "<<"),
+            ("LeftEquals", "<="), ("Right", ">"), ("DoubleRight", ">>"), ("RightEquals", ">="), ("Bang", "!"), ("BangEquals", "!="),
+            ("And", "&"), ("DoubleAnd", "&&"), ("Pipe", "|"), ("DoublePipe", "||"), ("Equals", "="), ("DoubleEquals", "=="), ("Tilde", "~"),
+            ("Comma", ","), ("Dot", "."), ("Ellipsis", "..."), ("Question", "?"), ("Arrow", "->"), ("FatArrow", "=>"), ("Caret", "^"),
+            ("Backtick", "`"), ("LParen", "("), ("RParen", ")"), ("LBrack", "["), ("RBrack", "]"), ("LBrace", "{"), ("RBrace", "}"),
+            ("Colon", ":"), ("Semicolon", ";"), ("Hash", "#"),
+        ];
+        PUNCT.iter().find(|(k, _)| *k == kind).map(|(_, t)| *t == text)
+    }
+
+    /// does any *named* language (see above) contain this whole text?
+    fn some_named_language_contains(text: &str) -> Option<&'static str> {
+        const ALL: &[&str] = &[
+            "Whitespace", "NonBreakingSpace", "Ident", "Float", "Int", "Hex", "Bin", "Bool", "Plus", "Hyphen", "Asterisk", "Slash", "Percent", "Left",
+            "DoubleLeft", "LeftEquals", "Right", "DoubleRight", "RightEquals", "Bang", "BangEquals", "And", "DoubleAnd", "Pipe", "DoublePipe",
+            "Equals", "DoubleEquals", "Tilde", "Comma", "Dot", "Ellipsis", "Question", "Arrow", "FatArrow", "Caret", "Backtick", "LParen", "RParen",
+            "LBrack", "RBrack", "LBrace", "RBrace", "Colon", "Semicolon", "Hash",
+        ];
+        ALL.iter().copied().find(|k| Self::named_language(k, text) == Some(true))
+    }
+
     fn kind_accepts(&self, kind: &str, text: &str) -> Result<(), String> {
+        if Self::named_language(kind, text) == Some(false) {
+            return Err(format!("text is not what a {kind} token is (language fixed by the kind's name, independent of tokenizer.txt)"));
+        }
+        if kind == "Error" {
+            if let Some(k) = Self::some_named_language_contains(text) {
+                return Err(format!("Error token whose text is a valid {k}"));
+            }
+        }
         match kind {
             "SingleQuote" => (text == "'").then_some(()).ok_or_else(|| "SingleQuote token is not `'`".into()),
             "DoubleQuote" => (text == "\"").then_some(()).ok_or_else(|| "DoubleQuote token is not `\"`".into()),
